@@ -1,5 +1,321 @@
 package relay
 
-func (s *Sys) attackOps() []string                              { return nil }
-func (s *Sys) stepAttack(f []string, add addFn) (string, string) { return "", "" }
-func (s *Sys) setupTSS()                                        {}
+import (
+	"fmt"
+	"math/big"
+	"strings"
+
+	sdk "github.com/cosmos/cosmos-sdk/types"
+
+	"github.com/ethereum/go-ethereum/common"
+
+	clienttypes "github.com/teleport-network/teleport/x/xibc/core/client/types"
+	"github.com/teleport-network/teleport/x/xibc/core/host"
+	packettypes "github.com/teleport-network/teleport/x/xibc/core/packet/types"
+
+	"verif/internal/world"
+)
+
+// spec is a relay message under construction: the genuine message for a transfer plus mutations.
+type spec struct {
+	kind     string // "recv" | "ack"
+	on       *world.Chain // chain the message is delivered to
+	holder   *world.Chain // chain whose store is proven
+	p        packettypes.Packet
+	ack      packettypes.Acknowledgement
+	ackRaw   []byte
+	keyKind  string // which key the proof is generated for: "commit" | "ack"
+	keySrc   string
+	keyDst   string
+	keySeq   uint64
+	genH     int64 // height the proof is generated for (client's latest)
+	stated   clienttypes.Height
+	tamper   string
+	signer   string
+	rawExtra bool
+}
+
+// RecvMutations / AckMutations are the single-mutation alphabets (simplest first).
+var packetMuts = []string{"p.seq+1", "p.seq-1", "p.sender", "p.amount+1", "p.receiver", "p.token", "p.calldata", "p.callback", "p.feeopt", "p.src=other", "p.src=unknown", "p.dst=other", "p.dst=unknown"}
+var proofMuts = []string{"proof.empty", "proof.trunc", "proof.flip0", "proof.flipmid", "proof.fliplast", "proof.otherkind", "proof.otherseq", "proof.otherheight"}
+var heightMuts = []string{"h+1", "h-1", "h.otherstored", "h.above", "h.rev"}
+var signerMuts = []string{"signer.out"}
+var ackMuts = []string{"a.code", "a.result", "a.message", "a.relayer", "a.feeopt"}
+
+func mutationsFor(kind, set string) []string {
+	var out []string
+	out = append(out, packetMuts...)
+	if kind == "ack" {
+		out = append(out, ackMuts...)
+	}
+	out = append(out, proofMuts...)
+	out = append(out, heightMuts...)
+	if kind == "recv" {
+		out = append(out, signerMuts...) // acks are not signer-restricted for proof-verifying clients
+	}
+	return out
+}
+
+// validTargets lists transfers for which a genuine relay message is acceptable right now.
+func (s *Sys) validTargets() (recv, ack []*transfer) {
+	for _, t := range s.tr {
+		src, dst := s.w.Chains[t.Src], s.w.Chains[t.Dst]
+		if src == nil || dst == nil {
+			continue
+		}
+		if !t.Received && int64(dst.ClientLatest(t.Src).RevisionHeight) > t.CommitAt {
+			recv = append(recv, t)
+		}
+		if t.Received && !t.Acked && t.AckBytes != nil && int64(src.ClientLatest(t.Dst).RevisionHeight) >= t.AckAt {
+			ack = append(ack, t)
+		}
+	}
+	return
+}
+
+func (s *Sys) attackOps() []string {
+	var out []string
+	recv, ack := s.validTargets()
+	emit := func(kind string, ts []*transfer) {
+		for _, t := range ts {
+			ms := mutationsFor(kind, s.cfg.AttackSet)
+			for _, m := range ms {
+				out = append(out, fmt.Sprintf("atk %s %s %s", kind, t.ID, m))
+			}
+			if s.cfg.AttackSet == "pairs" {
+				for i, m1 := range ms {
+					for _, m2 := range ms[i+1:] {
+						if strings.SplitN(m1, ".", 2)[0] == strings.SplitN(m2, ".", 2)[0] && strings.HasPrefix(m1, "proof") {
+							continue // two tamperings of the same proof bytes: the second overrides the first
+						}
+						out = append(out, fmt.Sprintf("atk %s %s %s,%s", kind, t.ID, m1, m2))
+					}
+				}
+			}
+		}
+	}
+	emit("recv", recv)
+	emit("ack", ack)
+	return out
+}
+
+func (s *Sys) otherChain(not ...string) string {
+	for _, n := range s.w.Order {
+		skip := false
+		for _, x := range not {
+			if x == n {
+				skip = true
+			}
+		}
+		if !skip {
+			return n
+		}
+	}
+	return "nochain-77"
+}
+
+func (s *Sys) baseSpec(kind string, t *transfer) *spec {
+	src, dst := s.w.Chains[t.Src], s.w.Chains[t.Dst]
+	sp := &spec{kind: kind, signer: "r1"}
+	must(sp.p.ABIDecode(t.Bytes))
+	sp.keySrc, sp.keyDst, sp.keySeq = sp.p.SrcChain, sp.p.DstChain, sp.p.Sequence
+	if kind == "recv" {
+		sp.on, sp.holder, sp.keyKind = dst, src, "commit"
+	} else {
+		sp.on, sp.holder, sp.keyKind = src, dst, "ack"
+		must(sp.ack.ABIDecode(t.AckBytes))
+		sp.ackRaw = t.AckBytes
+	}
+	sp.genH = int64(sp.on.ClientLatest(sp.holder.Name).RevisionHeight)
+	sp.stated = clienttypes.NewHeight(sp.holder.Revision(), uint64(sp.genH))
+	return sp
+}
+
+func (s *Sys) mutate(sp *spec, m string) {
+	switch m {
+	case "p.seq+1":
+		sp.p.Sequence++
+	case "p.seq-1":
+		sp.p.Sequence--
+	case "p.sender":
+		sp.p.Sender = strings.ToLower(sp.on.Accounts["out"].Eth.String())
+	case "p.amount+1", "p.receiver", "p.token":
+		var td packettypes.TransferData
+		if td.ABIDecode(sp.p.TransferData) == nil {
+			switch m {
+			case "p.amount+1":
+				a := new(big.Int).SetBytes(td.Amount)
+				td.Amount = common.LeftPadBytes(a.Add(a, big.NewInt(1)).Bytes(), 32)
+			case "p.receiver":
+				td.Receiver = strings.ToLower(sp.on.Accounts["out"].Eth.String())
+			case "p.token":
+				td.Token = strings.ToLower(sp.on.Accounts["out"].Eth.String())
+			}
+			sp.p.TransferData, _ = td.ABIPack()
+		}
+	case "p.calldata":
+		cd := packettypes.CallData{ContractAddress: strings.ToLower(sp.on.Accounts["out"].Eth.String()), CallData: []byte{1}}
+		if len(sp.p.CallData) > 0 {
+			sp.p.CallData = nil
+		} else {
+			sp.p.CallData, _ = cd.ABIPack()
+		}
+	case "p.callback":
+		sp.p.CallbackAddress = strings.ToLower(sp.on.Accounts["out"].Eth.String())
+	case "p.feeopt":
+		sp.p.FeeOption++
+	case "p.src=other":
+		sp.p.SrcChain = s.otherChain(sp.p.SrcChain, sp.p.DstChain)
+	case "p.src=unknown":
+		sp.p.SrcChain = "nochain-77"
+	case "p.dst=other":
+		sp.p.DstChain = s.otherChain(sp.p.SrcChain, sp.p.DstChain)
+	case "p.dst=unknown":
+		sp.p.DstChain = "nochain-77"
+	case "a.code":
+		if sp.ack.Code == 0 {
+			sp.ack.Code = 1
+		} else {
+			sp.ack.Code = 0
+		}
+		sp.ackRaw = nil
+	case "a.result":
+		sp.ack.Result = append(append([]byte{}, sp.ack.Result...), 1)
+		sp.ackRaw = nil
+	case "a.message":
+		sp.ack.Message += "x"
+		sp.ackRaw = nil
+	case "a.relayer":
+		sp.ack.Relayer = sp.on.Accounts["out"].Acc.String()
+		sp.ackRaw = nil
+	case "a.feeopt":
+		sp.ack.FeeOption++
+		sp.ackRaw = nil
+	case "proof.empty", "proof.trunc", "proof.flip0", "proof.flipmid", "proof.fliplast":
+		sp.tamper = m
+	case "proof.otherkind":
+		if sp.keyKind == "commit" {
+			sp.keyKind = "ack"
+		} else {
+			sp.keyKind = "commit"
+		}
+	case "proof.otherseq":
+		sp.keySeq++
+	case "proof.otherheight":
+		// genuine proof generated for another stored height, still stated under the original height
+		if o := s.otherStoredHeight(sp.on, sp.holder, sp.genH); o != 0 {
+			sp.genH = o
+		} else {
+			sp.genH--
+		}
+	case "h+1":
+		sp.stated.RevisionHeight++
+	case "h-1":
+		sp.stated.RevisionHeight--
+	case "h.otherstored":
+		if o := s.otherStoredHeight(sp.on, sp.holder, int64(sp.stated.RevisionHeight)); o != 0 {
+			sp.stated.RevisionHeight = uint64(o)
+		} else {
+			sp.stated.RevisionHeight -= 2
+		}
+	case "h.above":
+		sp.stated.RevisionHeight += 1000
+	case "h.rev":
+		sp.stated.RevisionNumber++
+	case "signer.out":
+		sp.signer = "out"
+	default:
+		panic("unknown mutation " + m)
+	}
+}
+
+func (s *Sys) otherStoredHeight(on, of *world.Chain, not int64) int64 {
+	var best int64
+	on.App.XIBCKeeper.ClientKeeper.IterateConsensusStates(on.ReadCtx(), func(name string, cs clienttypes.ConsensusStateWithHeight) bool {
+		h := int64(cs.Height.RevisionHeight)
+		if name == of.Name && h != not && h > best {
+			best = h
+		}
+		return false
+	})
+	return best
+}
+
+func tamperProof(bz []byte, how string) []byte {
+	out := append([]byte{}, bz...)
+	switch how {
+	case "proof.empty":
+		return nil
+	case "proof.trunc":
+		return out[:len(out)/2]
+	case "proof.flip0":
+		if len(out) > 0 {
+			out[0] ^= 1
+		}
+	case "proof.flipmid":
+		if len(out) > 0 {
+			out[len(out)/2] ^= 1
+		}
+	case "proof.fliplast":
+		if len(out) > 0 {
+			out[len(out)-1] ^= 1
+		}
+	}
+	return out
+}
+
+func (s *Sys) build(sp *spec) (sdk.Msg, world.Account) {
+	var key []byte
+	if sp.keyKind == "commit" {
+		key = host.PacketCommitmentKey(sp.keySrc, sp.keyDst, sp.keySeq)
+	} else {
+		key = host.PacketAcknowledgementKey(sp.keySrc, sp.keyDst, sp.keySeq)
+	}
+	proof, _, _ := sp.holder.QueryProof(key, sp.genH)
+	if sp.tamper != "" {
+		proof = tamperProof(proof, sp.tamper)
+	}
+	signer := sp.on.Accounts[sp.signer]
+	pb, err := sp.p.ABIPack()
+	must(err)
+	if sp.kind == "recv" {
+		return packettypes.NewMsgRecvPacket(pb, proof, sp.stated, signer.Acc), signer
+	}
+	ab := sp.ackRaw
+	if ab == nil {
+		ab, err = sp.ack.ABIPack()
+		must(err)
+	}
+	return packettypes.NewMsgAcknowledgement(pb, ab, proof, sp.stated, signer.Acc), signer
+}
+
+// stepAttack delivers one mutated relay message; the ordinary receive/ack monitors (ground truth included) decide it.
+func (s *Sys) stepAttack(f []string, add addFn) (string, string) {
+	kind, id, muts := f[0], f[1], strings.Split(f[2], ",")
+	t := s.find(id)
+	sp := s.baseSpec(kind, t)
+	for _, m := range muts {
+		s.mutate(sp, m)
+	}
+	msg, signer := s.build(sp)
+	label := "atk " + kind + " " + strings.Join(mutClass(muts), ",")
+	what := id + " mutated " + f[2]
+	if err := msg.ValidateBasic(); err != nil {
+		// refused at submission (stateless validation): nothing reaches the state machine
+		return "invalid-basic", label + " refused-stateless"
+	}
+	if kind == "recv" {
+		return s.deliverRecv(sp.on, signer, []sdk.Msg{msg}, false, label, what, add)
+	}
+	return s.deliverAck(sp.on, signer, []sdk.Msg{msg}, label, what, add)
+}
+
+func mutClass(ms []string) []string {
+	var out []string
+	for _, m := range ms {
+		out = append(out, strings.SplitN(m, ".", 2)[0])
+	}
+	return out
+}
+
+func (s *Sys) setupTSS() {}
